@@ -51,6 +51,7 @@ DEFAULT_PROFILE = dict(
     refill=0.15,                  # probability that later events are added to the simulator's queue only after run() returned (run() is then called again)
     aware_start=0.0,              # probability that the simulation start is a pytz-aware instant a few periods before a DST transition of its zone
     evse_subclass=0.1,            # probability that continuous EVSEs of the world are instances of a user subclass of EVSE (overrides delegate to the base class)
+    battery_subclass=0.08,        # probability that the world's batteries are instances of user subclasses (overrides delegate to the base class)
     zero_demand=0.0,              # per-session probability of a request of 0 / 0.5 Wh / 1 Wh (at or below the library's 'fully charged' threshold)
     event_subclass=0.1,           # probability that the world's plug-in / recompute events are instances of user subclasses of the built-in event types
 )
@@ -318,6 +319,11 @@ def gen_world(rs: int, P: dict) -> dict:
         cuts = refill_cuts(sc)
         if cuts:
             sc["refill"] = sorted(rf2.sample(cuts, min(len(cuts), rf2.choice([1, 1, 2]))))
+    rb2 = sub(rs, "battsub")
+    if P.get("battery_subclass", 0) and rb2.random() < P["battery_subclass"]:
+        for s_ in sessions:
+            if rb2.random() < 0.6:
+                s_["battery"]["sub"] = True
     rs2 = sub(rs, "evsub")
     if P.get("event_subclass", 0) and rs2.random() < P["event_subclass"]:
         for s_ in sessions:
